@@ -35,6 +35,14 @@ type bhGenerator struct {
 	dist     map[string]int
 	grants   [][3]int // authz grants made so far: granter, grantee, validator
 	regcoin  bool     // scripted prefix: register the test coin through governance
+	// governance: denominations and outcomes
+	extra    bool        // genesis funds the further denominations
+	minDep   [][2]string // further coins of the gov min deposit
+	noBurn   int         // burn switches turned off at genesis
+	mood     int         // 0 mixed votes, 1 mostly NoWithVeto, 2 mostly Yes, 3 hardly any voting power votes (quorum fails)
+	burnAt   int         // scripted: at this block a proposal with a deposit in several denominations is submitted ... (-1 = none)
+	burnHow  int         // ... and one block later 0: every validator operator votes NoWithVeto, 1: nobody votes (no quorum), 2: its deposit stays below the minimum
+	burnProp uint64      // id of the scripted proposal once it is known
 }
 
 var bhKindWeights = map[string]int{
@@ -91,6 +99,22 @@ func newBhGenerator(r *Rng, nblocks int, focus string) *bhGenerator {
 		g.evidAt = 3 + r.Intn(nblocks-4)
 	}
 	g.regcoin = r.Chance(55) || strings.HasPrefix(focus, "x/erc20")
+	g.extra = r.Chance(65)
+	if r.Chance(25) { // a min deposit in two denominations
+		g.minDep = [][2]string{{testDenom, "500"}}
+		if g.extra && r.Bool() {
+			g.minDep = [][2]string{{bhExtraDenoms[r.Intn(len(bhExtraDenoms))], "500"}}
+		}
+	}
+	if r.Chance(15) {
+		g.noBurn = 1 << uint(r.Intn(3))
+	}
+	g.mood = []int{0, 0, 1, 1, 2, 3}[r.Intn(6)]
+	g.burnAt = -1
+	if (r.Chance(50) || strings.HasPrefix(focus, "x/bank")) && nblocks >= 8 {
+		g.burnAt = 2 + r.Intn(nblocks/3)
+		g.burnHow = r.Intn(3)
+	}
 	if strings.HasPrefix(focus, "app/upgrades") || (focus == "" && r.Chance(8)) {
 		if nblocks >= 8 {
 			g.upgrade = nblocks - 3
@@ -102,7 +126,8 @@ func newBhGenerator(r *Rng, nblocks int, focus string) *bhGenerator {
 func (g *bhGenerator) genesis() bhGenesis {
 	r := g.r
 	return bhGenesis{NVal: 2 + r.Intn(3), MaxVals: 3 + r.Intn(3), Coinomics: r.Chance(80), Window: 4 + 2*r.Intn(3),
-		UnbondSecs: []int{15, 40, 120}[r.Intn(3)], VoteSecs: []int{12, 25, 60}[r.Intn(3)]}
+		UnbondSecs: []int{15, 40, 120}[r.Intn(3)], VoteSecs: []int{12, 25, 60}[r.Intn(3)],
+		Extra: g.extra, MinDep: g.minDep, NoBurn: g.noBurn}
 }
 
 func (g *bhGenerator) block(i int) bhBlock {
@@ -143,6 +168,12 @@ func (g *bhGenerator) ntx(i int) int {
 	}
 	if g.regcoin && i == 1 {
 		n = 4 + g.r.Intn(3)
+	}
+	if i == g.burnAt && n < 1 {
+		n = 1
+	}
+	if i == g.burnAt+1 && g.burnAt >= 0 && g.burnHow == 0 && n < 4 {
+		n = 4
 	}
 	return n
 }
@@ -250,13 +281,54 @@ func (g *bhGenerator) genTx(h *histRun, b *bhBlock, blockIdx, i int) *bhTx {
 		g.dist["upgrade"]++
 		return &bhTx{K: "upgrade", S: "v1.7.5"}
 	}
-	if g.regcoin && blockIdx == 0 && i == 0 {
-		g.dist["propose"]++
-		return &bhTx{K: "propose", F: r.Intn(bhNU), S: "registercoin", A: mulE18(10).String()}
-	}
 	if g.regcoin && blockIdx == 1 && i < 4 {
 		g.dist["vote"]++
 		return &bhTx{K: "vote", F: i, N: 1, V: 1}
+	}
+	// otherCoins: up to max coins of denominations other than the native one that u holds as bank coins
+	// (the test coin, the further genesis denominations, liquid tokens converted back from their ERC20 form)
+	otherCoins := func(u, max int) [][2]string {
+		var held sdk.Coins
+		for _, c := range a.BankKeeper.GetAllBalances(ctx, bhUserAcc[u]) {
+			if c.Denom != utils.BaseDenom {
+				held = append(held, c)
+			}
+		}
+		var out [][2]string
+		for n := 0; n < max && len(held) > 0; n++ {
+			j := r.Intn(len(held))
+			c := held[j]
+			held = append(held[:j], held[j+1:]...)
+			amt := big.NewInt(int64(1 + r.Intn(5000)))
+			if amt.Cmp(c.Amount.BigInt()) > 0 && !r.Chance(5) {
+				amt = c.Amount.BigInt()
+			}
+			out = append(out, [2]string{c.Denom, amt.String()})
+		}
+		return out
+	}
+	minDepX := func() [][2]string { return append([][2]string{}, g.minDep...) }
+	if g.regcoin && blockIdx == 0 && i == 0 {
+		g.dist["propose"]++
+		return &bhTx{K: "propose", F: r.Intn(bhNU), S: "registercoin", A: mulE18(10).String(), X: minDepX()}
+	}
+	if blockIdx == g.burnAt && i == 0 {
+		// scripted: a proposal whose deposit has the native coin and other denominations ...
+		g.dist["propose"]++
+		u := r.Intn(bhNU)
+		t := &bhTx{K: "propose", F: u, S: "text", A: mulE18(10).String(), X: append(minDepX(), otherCoins(u, 1+r.Intn(3))...)}
+		if g.burnHow == 2 { // ... that stays in the deposit period until it is dropped
+			t.A, t.X = mulE18(int64(1+r.Intn(9))).String(), otherCoins(u, 1+r.Intn(3))
+		}
+		if id, err := a.GovKeeper.GetProposalID(ctx); err == nil {
+			g.burnProp = id
+		}
+		return t
+	}
+	if g.burnAt >= 0 && blockIdx == g.burnAt+1 && g.burnHow == 0 && i < 4 {
+		// ... and is vetoed by the operators of the genesis validators (they hold the voting power)
+		g.dist["vote"]++
+		return &bhTx{K: "vote", F: i, N: int64(g.burnProp), V: 4}
 	}
 	k := g.pickKind()
 	if k == "redeem" && len(a.LiquidVestingKeeper.GetAllDenoms(ctx)) == 0 {
@@ -309,7 +381,10 @@ func (g *bhGenerator) genTx(h *histRun, b *bhBlock, blockIdx, i int) *bhTx {
 	case "send":
 		if r.Chance(20) {
 			t.D = testDenom
-			t.A = g.fraction(a.BankKeeper.GetBalance(ctx, bhUserAcc[f], testDenom).Amount.BigInt())
+			if oc := otherCoins(f, 1); len(oc) > 0 && r.Bool() {
+				t.D = oc[0][0]
+			}
+			t.A = g.fraction(a.BankKeeper.GetBalance(ctx, bhUserAcc[f], t.D).Amount.BigInt())
 		} else {
 			t.A = g.fraction(spend(f))
 		}
@@ -361,12 +436,24 @@ func (g *bhGenerator) genTx(h *histRun, b *bhBlock, blockIdx, i int) *bhTx {
 		}
 	case "fundpool":
 		t.A = g.fraction(new(big.Int).Quo(spend(f), big.NewInt(50)))
+		if r.Chance(35) {
+			t.X = otherCoins(f, 1+r.Intn(2))
+			if r.Chance(30) {
+				t.A = "0" // other denominations only
+			}
+		}
 	case "createval":
 		t.F = bhNV + r.Intn(bhNU-bhNV)
 		t.A = g.fraction(spend(t.F))
 	case "propose":
 		t.S = []string{"text", "text", "registercoin", "registercoin", "spend"}[r.Intn(5)]
 		t.A = []string{"0", mulE18(1).String(), mulE18(10).String(), mulE18(12).String()}[r.Intn(4)]
+		if r.Chance(50) {
+			t.X = otherCoins(f, 1+r.Intn(3))
+		}
+		if len(g.minDep) > 0 && r.Chance(70) {
+			t.X = append(minDepX(), t.X...)
+		}
 	case "deposit", "vote":
 		t.N = int64(1 + r.Intn(3))
 		var open []uint64
@@ -379,8 +466,19 @@ func (g *bhGenerator) genTx(h *histRun, b *bhBlock, blockIdx, i int) *bhTx {
 			t.N = int64(open[r.Intn(len(open))])
 		}
 		t.A = []string{mulE18(1).String(), mulE18(5).String(), mulE18(10).String()}[r.Intn(3)]
-		t.V = []int{1, 1, 1, 2, 3, 4, 4}[r.Intn(7)]
-		if k == "vote" && r.Chance(70) && len(vals) > 0 { // validators' operators carry the voting power
+		if k == "deposit" && r.Chance(45) {
+			t.X = otherCoins(f, 1+r.Intn(2))
+			if len(g.minDep) > 0 && r.Chance(60) {
+				t.X = append(minDepX(), t.X...)
+			}
+			if r.Chance(15) {
+				t.A = "0" // other denominations only
+			}
+		}
+		t.V = [][]int{{1, 1, 1, 2, 3, 4, 4}, {4, 4, 4, 4, 1, 3, 2}, {1, 1, 1, 1, 1, 2, 4}, {1, 2, 3, 4, 4, 1, 1}}[g.mood][r.Intn(7)]
+		if k == "vote" && g.mood == 3 {
+			t.F = bhNV + r.Intn(bhNU-bhNV) // mostly accounts without voting power: the quorum is missed
+		} else if k == "vote" && r.Chance(70) && len(vals) > 0 { // validators' operators carry the voting power
 			vi := valIndexOf(vals[r.Intn(len(vals))].OperatorAddress)
 			t.F = vi % bhNU
 			if vi >= bhNV {
